@@ -104,6 +104,13 @@ type Machine struct {
 	// path (by key) and the InfluxQL iterator path (through the index) can then legitimately show
 	// different allowed states of the same points, so only the cursor path is compared afterwards.
 	SkipQL bool
+	// Hidden: points that an interrupted (unacknowledged) delete was about to remove and that were
+	// not visible on the recovered image although they may physically still be there: a delete drops
+	// the series / the measurement's field schema from the index before or after its data effects
+	// are durable, so such a point can be invisible now and reappear when a later write re-creates
+	// the field. Until an acknowledged write or delete covers it, the point may be absent or present
+	// with its old value (adopted when first seen again).
+	Hidden map[string]hiddenPoint
 
 	roots []string // scratch roots to remove
 
@@ -111,6 +118,12 @@ type Machine struct {
 	Deletes, DeletesHitting, SnapshotsAfterDelete, CompactsAfterDelete, ReopensAfterDelete int
 	TSMFilesSeen                                                                           bool
 	CrashBetweenSteps, TornInside, WindowDeletes                                           int
+}
+
+type hiddenPoint struct {
+	series, field string
+	ts            int64
+	v             model.Val
 }
 
 func pkey(s, f string, ts int64) string { return fmt.Sprintf("%s|%s|%d", s, f, ts) }
@@ -127,7 +140,7 @@ func New(prop string, rec *ev.Recorder, failf Failer, fatal func(string, ...any)
 		fatal("fixture: %v", err)
 	}
 	return &Machine{Prop: prop, Rec: rec, FailF: failf, Fatal: fatal, F: f, M: model.NewStore(),
-		InTSM: map[string]bool{}, InCache: map[string]bool{}, roots: []string{root}}
+		InTSM: map[string]bool{}, InCache: map[string]bool{}, roots: []string{root}, Hidden: map[string]hiddenPoint{}}
 }
 
 // Close releases the fixture and removes all scratch roots.
@@ -182,6 +195,7 @@ func (mc *Machine) Write(pts []gen.WPoint) {
 func (mc *Machine) noteWrite(pts []gen.WPoint) {
 	for _, p := range pts {
 		for fn := range p.Fields {
+			delete(mc.Hidden, pkey(p.Series, fn, p.T))
 			mc.InCache[pkey(p.Series, fn, p.T)] = true
 		}
 	}
@@ -260,6 +274,7 @@ func (mc *Machine) Delete(series []string, min, max int64) {
 		mc.fail("delete-error", fmt.Sprintf("DeleteSeriesRange(%v,[%d,%d]): %v", series, min, max, err))
 	}
 	n := applyDelete(mc.M, series, min, max)
+	mc.clearHidden(series, min, max)
 	mc.Deletes++
 	if n > 0 {
 		mc.DeletesHitting++
@@ -267,6 +282,63 @@ func (mc *Machine) Delete(series []string, min, max int64) {
 	} else {
 		mc.Rec.Class("step:delete-empty")
 	}
+}
+
+// ClearHidden is clearHidden for step definitions outside the package.
+func (mc *Machine) ClearHidden(series []string, min, max int64) { mc.clearHidden(series, min, max) }
+
+// NoteWrite is the bookkeeping of an acknowledged write performed outside Machine.Write.
+func (mc *Machine) NoteWrite(pts []gen.WPoint) { mc.noteWrite(pts) }
+
+// HiddenSnapshot copies the hidden-point set (taken before an operation that may be torn).
+func (mc *Machine) HiddenSnapshot() map[string]hiddenPoint {
+	out := make(map[string]hiddenPoint, len(mc.Hidden))
+	for k, v := range mc.Hidden {
+		out[k] = v
+	}
+	return out
+}
+
+func (mc *Machine) clearHidden(series []string, min, max int64) {
+	for k, h := range mc.Hidden {
+		for _, s := range series {
+			if h.series == s && h.ts >= min && h.ts <= max {
+				delete(mc.Hidden, k)
+			}
+		}
+	}
+}
+
+// adoptHidden: if every point of got that the model lacks is a Hidden point with its old value,
+// the model adopts them (they became visible again) and true is returned.
+func (mc *Machine) adoptHidden(series, field string, got, want []model.Point) bool {
+	if len(mc.Hidden) == 0 {
+		return false
+	}
+	w := map[int64]bool{}
+	for _, p := range want {
+		w[p.T] = true
+	}
+	var adopt []hiddenPoint
+	for _, p := range got {
+		if w[p.T] {
+			continue
+		}
+		h, ok := mc.Hidden[pkey(series, field, p.T)]
+		if !ok || !h.v.Equal(p.V) {
+			return false
+		}
+		adopt = append(adopt, h)
+	}
+	if len(adopt) == 0 {
+		return false
+	}
+	for _, h := range adopt {
+		mc.M.Write(h.series, h.field, h.ts, h.v)
+		delete(mc.Hidden, pkey(h.series, h.field, h.ts))
+	}
+	mc.Rec.Class("read:hidden-point-of-interrupted-delete-visible-again")
+	return true
 }
 
 // ---------------------------------------------------------------------------------------------
@@ -278,6 +350,9 @@ func (mc *Machine) CheckRead(series, field string, lo, hi int64, asc, alsoQL boo
 	got, err := mc.F.Read(series, field, lo, hi, asc)
 	if err != nil {
 		mc.fail("read-error", fmt.Sprintf("cursor read %s %s [%d,%d] asc=%v: %v", series, field, lo, hi, asc, err))
+	}
+	if !model.EqualPoints(got, want) && mc.adoptHidden(series, field, got, want) {
+		want = mc.M.Range(series, field, lo, hi, asc)
 	}
 	if !model.EqualPoints(got, want) && !mc.known(series, field, lo, hi, asc, got, want) {
 		mc.fail(mc.mismatchKey(series, field, got, want), fmt.Sprintf("cursor read %s %s [%d,%d] asc=%v\n got:  %s\n want: %s", series, field, lo, hi, asc, model.Render(got), model.Render(want)))
@@ -455,9 +530,16 @@ func (mc *Machine) CrashDuring(step Step, point string, hit int) bool {
 // TornWAL copies the trees as they are after the last acknowledged operation and truncates the
 // newest WAL segment to `size` bytes (size lies inside the last record, whose extent the caller
 // measured), then recovers on that image. before/after are the model states around that last op.
-func (mc *Machine) TornWAL(before *model.Store, segment string, size int64, inside, ofDelete bool) {
+func (mc *Machine) TornWAL(before *model.Store, hiddenBefore map[string]hiddenPoint, segment string, size int64, inside, ofDelete bool) {
 	if ofDelete {
 		mc.SkipQL = true
+	}
+	// the torn operation counts as unacknowledged: what it would have settled about hidden points
+	// (a delete clears them, a write overwrites them) is not settled
+	for k, v := range hiddenBefore {
+		if _, ok := mc.Hidden[k]; !ok {
+			mc.Hidden[k] = v
+		}
 	}
 	image, err := scratch.Dir(strings.ToLower(mc.Prop) + "-torn-")
 	if err != nil {
@@ -509,6 +591,7 @@ func (mc *Machine) recoverOn(image string, before, after *model.Store, what stri
 	mc.F = nf
 	// reconcile: per point, before or after is acceptable when they differ
 	rec := before.Clone()
+	var hidden []hiddenPoint
 	for _, s := range gen.SeriesKeys {
 		for _, f := range gen.Fields {
 			b := before.Range(s, f.Name, models.MinNanoTime, models.MaxNanoTime, true)
@@ -559,7 +642,17 @@ func (mc *Machine) recoverOn(image string, before, after *model.Store, what stri
 						}
 					} else if bok {
 						rec.DeleteRange1(s, f.Name, t)
+						if !aok {
+							hidden = append(hidden, hiddenPoint{s, f.Name, t, bv})
+						}
 					}
+					continue
+				}
+				if h, ok := mc.Hidden[pkey(s, f.Name, t)]; ok && gok && !bok && !aok && h.v.Equal(gv) {
+					// a point left behind by an earlier interrupted delete became visible again
+					rec.Write(s, f.Name, t, gv)
+					delete(mc.Hidden, pkey(s, f.Name, t))
+					mc.Rec.Class("read:hidden-point-of-interrupted-delete-visible-again")
 					continue
 				}
 				if mc.known(s, f.Name, models.MinNanoTime, models.MaxNanoTime, true, got, b) {
@@ -578,6 +671,9 @@ func (mc *Machine) recoverOn(image string, before, after *model.Store, what stri
 		}
 	}
 	mc.M = rec
+	for _, h := range hidden {
+		mc.Hidden[pkey(h.series, h.field, h.ts)] = h
+	}
 	// what is in cache/TSM is unknown after recovery; keep InTSM as an over-approximation
 	for k := range mc.InCache {
 		mc.InTSM[k] = true
